@@ -766,6 +766,8 @@ def run_histories(case, rec):
                         b = idx.base(f['type'])
                         if b[0] == 'prim' and b[1] in ('Bytes', 'Timestamp'):
                             rec.note('bytes_timestamp_default_read(judged by C10)')
+                        elif f['default'][0] == 'lit' and M.lexer_rewrites(f['default'][1]):
+                            rec.note('default_literal_rewritten_by_lexer(judged by C02)')
                         elif raised or not _default_matches(bb, f, got):
                             viol('read-differs', 'unset defaulted field reads %r / %r, declared default %r' % (
                                 got, raised, f['default']), 'unset-default')
